@@ -11,10 +11,14 @@ pub const TARGET_POOL : &[&str] = &[
     // names whose position differs between the bundle notation (directory first, then its children) and plain string
     // order: '.', '-' and ' ' sort below '/'
     "out.log", "out-x", "gen.d", "gen/sub.txt", "gen/sub-1", "bin.lst",
+    // not ASCII: two and three bytes per character in the paths ruler stores in its state files and hashes into identities
+    "gen/é", "ü", "out/日",
 ];
 
 pub const LEAF_POOL : &[&str] = &[
-    "s1", "s2", "s3", "s4", "0leaf", "zleaf", "src/u", "src/v", "src/w", "in/p", "in/q", "in/deep/r", "src.cfg", "in-2",
+    "s1", "s2", "s3", "s4", "0leaf", "zleaf", "src/u", "src/v", "src/w", "in/p", "in/q", "in/deep/r", "src.cfg", "in-2", "src/ñ",
+    // hidden files whose names are a target name with dots in front
+    ".a", "..c",
 ];
 
 pub const UNDECLARED_POOL : &[&str] = &["env/one", "env/two", "hidden"];
